@@ -139,8 +139,21 @@ def work(args):
         name = rng.choice(["cafe", "00", "deadbeef", "ABCD", "f00d"])
         files[name] = bytes([0xFF]) + bytes(rng.randrange(256) for _ in range(rng.randrange(1, 30)))
         desc["SUIT_Envelope_Tagged"].setdefault("suit-integrated-payloads", {})["#hexnamed"] = name
+        # the same kind of name in the dictionary forms {file: NAME}: there the name is a path and nothing else (no ambiguity: not part of F9)
+        name2 = rng.choice(["3f9a2c1e", "20240926", "deadbeef", "00ff", "ABCDEF"])
+        files[name2] = bytes(rng.randrange(256) for _ in range(rng.randrange(1, 1200)))
+        alg = rng.choice(["cose-alg-sha-256", "cose-alg-sha-384", "cose-alg-sha-512", "cose-alg-shake128", "cose-alg-shake256"])
+        desc["SUIT_Envelope_Tagged"]["suit-manifest"]["suit-validate"] = [{"suit-directive-override-parameters": {
+            "suit-parameter-image-digest": {"suit-digest-algorithm-id": alg, "suit-digest-bytes": {"file": name2}},
+            "suit-parameter-image-size": {"file": name2}}}]
     impl = suitcases.run_impl_create(desc, files)
     model = suitio.model_create(drv, desc, files)
+    if kind == "decoy" and "ok" in impl:
+        # through the command line, the description kept in another directory that holds same-named files with other contents:
+        # relative names are relative to the working directory
+        cli = suitcases.run_cli_create(desc, files, "yaml" if index % 2 else "json", decoy=True)
+        if cli != impl:
+            impl = cli if "ok" in cli else {"err": "cli:" + cli.get("err", "?")}
     agree = impl == model or suitio.same_err(impl, model)
     refs = []
     if "ok" in impl:
@@ -162,6 +175,7 @@ def run(tier: str, seed: int) -> int:
     jobs = [(seed, i, "lib") for i in range(n)] + [(seed, 5 * 10 ** 6 + i, "deep") for i in range(n // 5)]
     jobs += [(seed, 6 * 10 ** 6 + i, "hexname") for i in range(20 if tier == "quick" else 300)]
     jobs += [(seed, 9 * 10 ** 6 + i, "bigfile") for i in range(14 if tier == "quick" else 120)]
+    jobs += [(seed, 10 * 10 ** 6 + i, "decoy") for i in range(40 if tier == "quick" else 400)]
     jobs += [(seed, 7 * 10 ** 6 + i, "big") for i in range(6 if tier == "quick" else 60)]
     known = {e["id"] for e in Findings().known(PROP)}
     outs = common.pmap(work, jobs, chunk=8)
